@@ -42,7 +42,7 @@ def gen_spec(rng, max_levels=3, bounds_pool=(2, 3, 4, 6, 8), fancy=True):
               "rthr": rng.choice([None, None, 1, 2, 4, 8]), "wthr": rng.choice([None, None, 1, 2, 4, 8]),
               "leak": rng.choice([0, 0, 1, 2]) if fancy else 0,
               "bpa_r": rng.choice([8, 8, 16, 32]) if fancy else 8, "bpa_w": rng.choice([8, 8, 16]) if fancy else 8,
-              "bpv": {}, "vpa_c": {}, "vpa_r": {}, "size": None}
+              "bpv": {}, "vpa_c": {}, "vpa_r": {}, "size": None, "ascale": (rng.choice([1, 1, 1, 2, 3]) if fancy else 1)}
         if fancy:
             for t in tensors:
                 r = rng.random()
@@ -103,13 +103,14 @@ def q_scale(spec, lvl, t, action):
        action.values_per_action[t] > component.values_per_action[t] > action.bits_per_action / (component.bits_per_value[t] > workload bpv)"""
     L, T = spec["levels"][lvl], spec["tensors"][t]
     name = T["name"]
+    asc = L.get("ascale", 1)          # component-level actions_scale multiplies every action count of the component
     if action == "read" and name in L["vpa_r"]:
-        return Fraction(1, L["vpa_r"][name])
+        return Fraction(asc, L["vpa_r"][name])
     if name in L["vpa_c"]:
-        return Fraction(1, L["vpa_c"][name])
+        return Fraction(asc, L["vpa_c"][name])
     bpv = L["bpv"].get(name, T["bpv"])
     bpa = L["bpa_r"] if action == "read" else L["bpa_w"]
-    return Fraction(bpv, bpa)
+    return Fraction(bpv * asc, bpa)
 
 
 def arch_yaml(spec, keep_all=True):
@@ -121,6 +122,8 @@ def arch_yaml(spec, keep_all=True):
             extra += "    bits_per_value: {" + ", ".join(f"{k}: {v}" for k, v in L["bpv"].items()) + "}\n"
         if L["vpa_c"]:
             extra += "    values_per_action: {" + ", ".join(f"{k}: {v}" for k, v in L["vpa_c"].items()) + "}\n"
+        if L.get("ascale", 1) != 1:
+            extra += f"    actions_scale: {L['ascale']}\n"
         vr = ", values_per_action: {" + ", ".join(f"{k}: {v}" for k, v in L["vpa_r"].items()) + "}" if L["vpa_r"] else ""
         if L.get("toll"):
             dirs = "{" + ", ".join(f"{k}: {v}" for k, v in L["dir"].items()) + "}"
